@@ -1153,10 +1153,15 @@ RO_SPECS = [
 
 
 def readonly_strategy(tier):
+    with_sfp = rg.reactor_spec(max_rings=2, max_blocks=2, min_assems=2).map(lambda spec: dict(spec, sfp=True))
     return st.fixed_dictionaries(
         {
-            "spec": rg.reactor_spec(max_rings=2, max_blocks=2),
+            "spec": st.one_of(with_sfp, with_sfp, rg.reactor_spec(max_rings=2, max_blocks=2)),
             "enabled": st.just(["param", "param", "unset", "ndens", "temp", "pitch", "height"]),
+            # assemblies (index modulo the core's assemblies) discharged to the spent fuel pool BEFORE the reactor is frozen: the
+            # pool then holds assemblies, blocks and components (pin lattices included) that must be frozen as well
+            "discharge": st.one_of(st.lists(st.integers(0, 10**6), min_size=1, max_size=3), st.lists(st.integers(0, 10**6), min_size=1, max_size=2),
+                                   st.just([])),
             "pre": st.lists(_op(), max_size=10),
             "variant": st.integers(0, 3),
         }
@@ -1164,7 +1169,12 @@ def readonly_strategy(tier):
 
 
 def readonly_enum(tier):
-    return [{"spec": s, "enabled": ["param"], "pre": [], "variant": v} for s in RO_SPECS for v in (0, 1)]
+    cases = []
+    for s in RO_SPECS:
+        for discharge in ([], [1]) if s["sfp"] else ([],):
+            for v in (0, 1):
+                cases.append({"spec": s, "enabled": ["param"], "pre": [], "variant": v, "discharge": discharge})
+    return cases
 
 
 def _different(cur, variant):
@@ -1196,8 +1206,23 @@ def readonly_execute(case):
     from vp.model import observe as ob
 
     out = Out()
-    cs, bp, r = rg.build(case["spec"])
+    cs, bp, r = rg.build(case["spec"])  # (settings: trackAssems)
+    sfp = r.excore.get("sfp") if case["spec"].get("sfp") else None
+    for k in case.get("discharge", []):
+        assems = list(r.core)
+        if sfp is None or sfp.spatialGrid is None or len(assems) < 2:
+            break
+        r.core.removeAssembly(assems[k % len(assems)], discharge=True)
+    # every object reachable from the reactor: the reactor, the core, the ex-core structures and all assemblies / blocks /
+    # components beneath either of them (the interpreter enumerates the tree in pre-order)
     it = Interp(r, out, case["enabled"], case, prefix="readonly")
+    inpool = set()
+    for i, o in enumerate(it.objs):
+        if it.level[i] == "excore":
+            inpool.update(range(i + 1, i + it.size[i]))
+    out.label("excore-objects:%s" % ("0" if not inpool else "1-9" if len(inpool) < 10 else "10+"))
+    if any(it.level[i] == "component" and type(it.objs[i].spatialLocator).__name__ == "MultiIndexLocation" for i in inpool):
+        out.label("excore-pin-lattice-components")
     for op in case["pre"]:
         it.apply(op)
     reactorParameters.makeParametersReadOnly(r)
@@ -1218,7 +1243,7 @@ def readonly_execute(case):
                         o.p[name] = value
                     else:
                         setattr(o.p, name, value)
-                    accepted.append((it.level[i], name, form, "accepted"))
+                    accepted.append((it.level[i] + (" in an ex-core structure" if i in inpool else ""), name, form, "accepted"))
                 except RuntimeError:
                     pass
                 except ParameterError:
@@ -1230,7 +1255,7 @@ def readonly_execute(case):
     out.nontrivial = len(it.objs) > 3
     out.label("geom:" + case["spec"]["geom"], "objects:%d" % (10 * (len(it.objs) // 10)))
     for lvl, name, form, how in accepted[:3]:
-        out.fail("readonly/assignment-not-refused/" + ("item" if form == 0 else "attribute"),
+        out.fail("readonly/assignment-not-refused/" + ("excore-contents/" if "ex-core" in lvl else "") + ("item" if form == 0 else "attribute"),
                  "read-only reactor: %s parameter %r: %s %s" % (lvl, name, "p[name] = v" if form == 0 else "setattr(p, name, v)", how))
     if accepted:
         return out  # the state may be unreadable now
@@ -1290,10 +1315,13 @@ PARTS = [
               "original or of an earlier copy); oracle: equal values (serial aside), copying changes no live tree, deep-copy serials fresh and "
               "unique, then a mutation program on one tree leaves every other tree's snapshot unchanged.  Non-trivial = >= 2 copy steps"),
     Part("readonly", readonly_execute, strategy=readonly_strategy, budget={"quick": 40, "thorough": 1500}, procs={"quick": 2, "thorough": 16},
-         rule="Hypothesis: reactor + state changes, makeParametersReadOnly, then p[name] = v and setattr(p, name, v) on every parameter of "
-              "every object (evals = attempts) and a list of public mutators; all must raise and the snapshot must not move"),
+         rule="Hypothesis: reactor (two in three with a spent fuel pool that 1-3 assemblies are discharged to first, pin lattices "
+              "included) + state changes, makeParametersReadOnly, then p[name] = v and setattr(p, name, v) on every parameter of every "
+              "object reachable from the reactor (reactor, core, ex-core structures, assemblies/blocks/components in the core and in the "
+              "pool; evals = attempts) and a list of public mutators; all must raise and the snapshot must not move"),
     Part("readonly_all", readonly_execute, enumerate=readonly_enum, exhaustive=True, procs={"quick": 2, "thorough": 6},
          rule="complete enumeration: every parameter definition of every object of three fixed reactors (hex third with SFP and pin "
-              "lattice, hex corners-up full core, Cartesian quarter core), both assignment forms, two replacement values",
-         bound=lambda t: "every (object, parameter definition, assignment form) of %d fixed reactors x 2 replacement values" % len(RO_SPECS)),
+              "lattice, hex corners-up full core, Cartesian quarter core; the two with a pool also with one assembly discharged to it "
+              "before freezing), both assignment forms, two replacement values",
+         bound=lambda t: "every (object, parameter definition, assignment form) of %d fixed reactors (+2 with an occupied pool) x 2 replacement values" % len(RO_SPECS)),
 ]
